@@ -134,7 +134,7 @@ def judgeLine (j : J) (op : String) (outs : List String) : J × List String :=
   | "expect" :: _ => ({ j with expect := some ((op.drop 7).toString) }, [])
   | ["expecterr"] => ({ j with expect := some "!err" }, [])
   | "sql" :: _ | "toks" :: _ =>
-    let last := outs.getLast?.getD ""
+    let last := (outs.filter fun o => !o.startsWith "cur ").getLast?.getD ""
     let short := (op.take 300).toString
     let v1 := if outs.any (fun o => o == "panic") then [s!"VIOLATION case={j.caseId} sig=sql:panic op=[{short}]"]
       else if outs.any (fun o => o == "hang") then [s!"VIOLATION case={j.caseId} sig=sql:hang op=[{short}]"]
@@ -148,7 +148,13 @@ def judgeLine (j : J) (op : String) (outs : List String) : J × List String :=
       | some e =>
         if last == "ok " ++ e then [] else
           [s!"VIOLATION case={j.caseId} sig=sql:unfaithful expected=[{(e.take 400).toString}] got=[{(last.take 400).toString}] op=[{short}]"]
-    ({ j with expect := none }, v1 ++ v2)
+    -- a statement was returned although the parser never looked at the rest of the input (C10: no
+    -- clause is silently cut short); the harness reports the token type the parser stands on
+    let v3 := match outs.find? (·.startsWith "cur ") with
+      | some c => if c == "cur -1" then [] else
+          [s!"VIOLATION case={j.caseId} sig=sql:statement-tail-dropped parser-stopped-at-token-type={(c.drop 4).toString} got=[{(last.take 200).toString}] op=[{short}]"]
+      | none => []
+    ({ j with expect := none }, v1 ++ v2 ++ v3)
   | _ => (j, [])
 
 end Mkdb.Driver.Sql
